@@ -276,6 +276,7 @@ func solo(sc *scenario, i int) soloInfo {
 	var baseLines []string
 	cur := base
 	prev := -1
+	prevLocks := 0
 	x := vsched.Run([]func() interface{}{bodies[i]}, nil, func(s *vsched.Sched) {
 		configureHooks(s)
 		s.OnPoint = func(thread, id int) {
@@ -283,7 +284,10 @@ func solo(sc *scenario, i int) soloInfo {
 			h := st.shared.Hash()
 			if h != cur {
 				cur = h
-				if s.ExclusiveLocksHeld() > 0 || (prev >= 0 && jmespath.VerifAtomicPoints[prev]) {
+				// the write was made by the statement at the previous point: it was synchronised if an exclusive
+				// lock was held when that statement STARTED (a deferred Unlock runs after the last statement of a
+				// function and before the next point) or is held now (the statement itself took the lock)
+				if prevLocks > 0 || s.ExclusiveLocksHeld() > 0 || (prev >= 0 && jmespath.VerifAtomicPoints[prev]) {
 					info.locked++
 				} else if len(info.writes) < 3 {
 					if baseLines == nil {
@@ -301,10 +305,13 @@ func solo(sc *scenario, i int) soloInfo {
 				}
 			}
 			prev = id
+			prevLocks = s.ExclusiveLocksHeld()
 		}
 	})
 	clearHooks()
-	if h := st.shared.Hash(); h != cur && len(info.writes) < 3 {
+	if h := st.shared.Hash(); h != cur && prevLocks > 0 {
+		info.locked++ // the last statement of the body wrote under a lock released by a deferred Unlock
+	} else if h != cur && len(info.writes) < 3 {
 		site := "?"
 		if prev >= 0 && prev < len(jmespath.VerifSites) {
 			site = jmespath.VerifSites[prev]
